@@ -210,6 +210,8 @@ def _helper_facts(chk, ctx) -> None:
         facts('C20.driver', f'REParser.{fname}', fi, {
             f'{what} is taken from its line': bool(m.full_assigns(fi.node, *spec_assign)),
             'over all lines': bool(m.fors(fi.node, 's.splitlines()')),
+            'to the last line (the scan is not left early: a late entrant posts a third blind, a dead blind comes after the button)':
+                not any(isinstance(x, (ast.Break, ast.Return)) for lp in m.fors(fi.node, 's.splitlines()') for st in lp.body for x in ast.walk(st)),
         }, f'the {what} is read from the lines that state it, parsed with the caller\'s value parser')
     for fname, group, conv in (('_parse_final_seat', 'final_seat', "int(m['final_seat'])"), ('_parse_variant', 'variant', "self.VARIANTS[m['variant']]")):
         fi = base.methods.get(fname)
